@@ -276,6 +276,7 @@ class Program(object):
     def run(self):
         # Build dependency lookup
         dependents = {}  # {result_name, [dependent_name, ...], ...}
+        requires = {}  # {result_name: {names of the commands it references, ...}, ...}
 
         for command in self.commands.values():
             references = []
@@ -297,6 +298,26 @@ class Program(object):
             for reference in references:
                 dependents[reference] = dependents.get(reference, set())
                 dependents[reference].add(command.result_name)
+
+            requires[command.result_name] = set(
+                x.result_name if isinstance(x, Command) else x for x in references
+            ).intersection(self.commands)
+
+        # Run commands in dependency order: each one finds its inputs finished, so evaluation never nests deeper than
+        # one command and the depth of a model is not limited by the interpreter's stack. Whatever is left over
+        # (commands on a reference cycle) is handled below.
+        waiters = {}  # {result_name: [names of the commands waiting for it, ...], ...}
+        for name, names in requires.items():
+            for required_name in names:
+                waiters.setdefault(required_name, []).append(name)
+
+        ready = [name for name in self.commands if not requires[name]]
+        for name in ready:  # grows while iterating
+            self.commands[name].run()
+            for waiter in waiters.get(name, ()):
+                requires[waiter].discard(name)
+                if not requires[waiter]:
+                    ready.append(waiter)
 
         # Find and run leaf nodes (commands without any dependents)
         for command in (
